@@ -182,7 +182,7 @@ fn gen(rng: &mut Rng, tier: Tier) -> Value {
 fn handle_specs(spec: &Spec) -> Vec<&Spec> {
   let mut v = vec![spec];
   spec.walk(&mut |s| {
-    if matches!(s, Spec::Cached { .. } | Spec::Replace { .. }) && !std::ptr::eq(s, spec) {
+    if matches!(s, Spec::Cached { .. } | Spec::Replace { .. } | Spec::RawBytes { .. } | Spec::RawBuffer { .. }) && !std::ptr::eq(s, spec) {
       v.push(s);
     }
   });
@@ -303,8 +303,16 @@ fn strip(t: Vec<Vec<At>>) -> Vec<Vec<At>> {
 fn perform(h: &BoxSource, op: Op, private: &BoxSource) -> Answer {
   match op {
     Op::Source => Answer::Text(h.source().to_string()),
-    Op::Map(true) => Answer::Map(attr_of_map(&h.source(), h.map(&MapOptions::new(true)).as_ref()).map(strip)),
-    Op::Map(false) => Answer::MapLines(attr_lines_of_map(&h.source(), h.map(&MapOptions::new(false)).as_ref())),
+    // map() first, the text (needed to read the map) afterwards: the call
+    // under test must meet the object in the state the schedule left it in
+    Op::Map(true) => {
+      let m = h.map(&MapOptions::new(true));
+      Answer::Map(attr_of_map(&h.source(), m.as_ref()).map(strip))
+    }
+    Op::Map(false) => {
+      let m = h.map(&MapOptions::new(false));
+      Answer::MapLines(attr_lines_of_map(&h.source(), m.as_ref()))
+    }
     Op::Stream(true) => {
       let r = record(h, &MapOptions::new(true));
       Answer::Stream(r.text(), strip(attr_of_stream(&r)), r.end)
@@ -320,7 +328,8 @@ fn perform(h: &BoxSource, op: Op, private: &BoxSource) -> Answer {
     }
     Op::CloneMap(c) => {
       let cl: Box<dyn Source> = dyn_clone::clone_box(&**h);
-      Answer::Map(attr_of_map(&cl.source(), cl.map(&MapOptions::new(c)).as_ref()).map(strip))
+      let m = cl.map(&MapOptions::new(c));
+      Answer::Map(attr_of_map(&cl.source(), m.as_ref()).map(strip))
     }
     Op::EqPrivate => Answer::Bool(beq(h, private)),
   }
@@ -564,7 +573,56 @@ fn gen_calls(rng: &mut Rng, nhandles: usize, lo: usize, hi: usize) -> Vec<Call> 
     .collect()
 }
 
+/// Lazy decoding under real threads: a large binary leaf with invalid UTF-8
+/// (decoded on first use into a once-cell) shared between a ConcatSource
+/// whose map() streams it in final-source mode and direct readers; every
+/// thread's first call hits the cold leaf right after the barrier. No
+/// CachedSource / ReplaceSource, so sequential answers are history independent.
+fn gen_lazy_decode(rng: &mut Rng) -> Value {
+  let unit: &[u8] = *rng.pick(&[&b"ab;cd\n"[..], &b"x = 1;\n"[..], &b"0123456789abcdef\n"[..]]);
+  let total = *rng.pick(&[16usize << 10, 48 << 10, 96 << 10]);
+  let mut bytes: Vec<u8> = Vec::with_capacity(total + 4);
+  while bytes.len() < total {
+    bytes.extend_from_slice(unit);
+  }
+  // invalid only at the end (a valid prefix is scanned first) or also early
+  if rng.chance(1, 2) {
+    let at = rng.below(bytes.len());
+    bytes[at] = 0xff;
+  }
+  bytes.push(0xff);
+  let leaf = if rng.chance(1, 2) { Spec::RawBytes { bytes } } else { Spec::RawBuffer { bytes } };
+  let other = Spec::Original { text: "tail = 1;\n".into(), name: "a.js".into() };
+  let children = if rng.chance(1, 2) { vec![leaf, other] } else { vec![other, leaf] };
+  let spec = Spec::Concat { children, how: *rng.pick(&[crate::spec::How::NewBoxed, crate::spec::How::Add]) };
+  let nthreads = rng.range(3, 6);
+  let threads: Vec<Vec<Call>> = (0..nthreads)
+    .map(|t| {
+      let first = if t == 0 {
+        // the enclosing map(): the leaf is streamed in final-source mode
+        Call { target: 0, op: Op::Map(rng.chance(1, 2)) }
+      } else {
+        Call {
+          target: rng.below(2),
+          op: match rng.below(6) {
+            0 | 1 => Op::Source,
+            2 => Op::Stream(false),
+            3 => Op::Hash,
+            4 => Op::CloneSource,
+            _ => Op::Map(false),
+          },
+        }
+      };
+      vec![first, Call { target: rng.below(2), op: Op::Source }]
+    })
+    .collect();
+  json!({ "spec": spec, "threads": threads, "warm": [], "yield_hooks": false, "rounds": 6, "no_shrink": true, "family": "lazy_decode" })
+}
+
 fn gen_stress(rng: &mut Rng, _tier: Tier) -> Value {
+  if rng.chance(1, 8) {
+    return gen_lazy_decode(rng);
+  }
   let spec = gen_shared_spec(rng, 14, 12);
   let nh = handle_specs(&spec).len();
   let nthreads = rng.range(4, 8);
@@ -655,8 +713,19 @@ fn check_stress(case: &Value, obs: &mut Obs) {
       .collect();
     for (ti, j) in joins.into_iter().enumerate() {
       match j.join() {
-        Err(_) => {
-          let (msg, origin) = crate::worker::take_panic().unwrap_or_default();
+        Err(payload) => {
+          let (mut msg, origin) = crate::worker::take_panic().unwrap_or_default();
+          if msg.is_empty() {
+            // the hook ran on the other thread: take the message from the payload
+            msg = payload
+              .downcast_ref::<String>()
+              .cloned()
+              .or_else(|| payload.downcast_ref::<&str>().map(|s| s.to_string()))
+              .unwrap_or_default()
+              .chars()
+              .take(300)
+              .collect();
+          }
           if origin == "harness" {
             obs.inconclusive.push(format!("harness panic in thread {ti}: {msg}"));
           } else {
@@ -693,6 +762,9 @@ fn check_stress(case: &Value, obs: &mut Obs) {
     obs.count("threads_run", threads.len() as u64);
   }
   rspack_sources::verif::set_scheduler(None);
+  if case.get("family").and_then(|v| v.as_str()) == Some("lazy_decode") {
+    obs.class("lazy_decode_of_a_large_invalid_utf8_leaf");
+  }
   if yield_hooks {
     obs.class("yield_hooks");
   } else {
